@@ -82,7 +82,7 @@ class RowParallelLinear(torch.nn.Linear):
 class NCfg:
     def __init__(self, rng, **force):
         self.seed = rng.randrange(10**9)
-        self.pp = rng.choice([1, 1, 2])
+        self.pp = rng.choice([1, 1, 2, 2, 3])        # (3 stages x 2 blocks: layer names '2' and '12', '5' and '15')
         self.dp = rng.choice([1, 2, 2, 3])
         self.mp = rng.choice([1, 2, 2, 4])
         self.blocks = rng.choice([1, 1, 2])          # [Column, Tanh, Row] blocks per stage
@@ -105,6 +105,7 @@ class NCfg:
         self.ckpt_dir = None
         self.inv32 = False                           # second-order data in float32, factors in float64
         self.empty_stage = None                      # index of a pipeline stage without K-FAC layers (set after pp is known)
+        self.loss_scale = rng.choice([1.0, 1.0, 1.0, 8.0, 1024.0])     # AMP loss scale handed to K-FAC as grad_scaler (no clipping)
         self.hook = rng.random() < 0.7               # update_factors_in_hook
         self.accum = rng.choice([1, 1, 2, 3])        # accumulation_steps: every 'f1' below stands for `accum` passes
         self._expanded = False
@@ -201,6 +202,7 @@ def run_real(cfg, sched_seed=0):
         if not mods:
             mods.append(torch.nn.Tanh())        # the stage still holds (unregistered) modules
         model = PipelineModule(layers=mods, topology=topo, layer_offset=co.pipe * 3 * cfg.blocks)
+        S_ = float(getattr(cfg, 'loss_scale', 1.0) or 1.0) if cfg.kl is None else 1.0
         import warnings
 
         def mk():
@@ -211,6 +213,7 @@ def run_real(cfg, sched_seed=0):
                     factor_decay=float(cfg.decay), kl_clip=(None if cfg.kl is None else float(cfg.kl)), lr=float(cfg.lr),
                     allreduce_bucket_cap_mb=cfg.cap_mb, compute_eigenvalue_outer_product=cfg.prediv,
                     accumulation_steps=cfg.accum, update_factors_in_hook=cfg.hook,
+                    grad_scaler=((lambda: S_) if S_ != 1.0 else None),
                     symmetry_aware=cfg.sym, data_parallel_group=groups['data'], model_parallel_group=groups['model'],
                     pipeline_parallel_group=groups['pipe'], inv_dtype=(torch.float32 if getattr(cfg, 'inv32', False) else DT), factor_checkpoint_dir=cfg.ckpt_dir)
         p = mk()
@@ -231,7 +234,7 @@ def run_real(cfg, sched_seed=0):
                 if not any(True for _ in model.parameters()):
                     x.requires_grad_(True)      # a stage without parameters still runs forward/backward
                 y = model(x)
-                (y * y).mean().backward()
+                ((y * y).mean() * S_).backward()
             elif op == 's':
                 w.muted[rank] = True
                 for prm in model.parameters():
@@ -239,9 +242,11 @@ def run_real(cfg, sched_seed=0):
                         dist.all_reduce(prm.grad, group=groups['data'])
                         prm.grad /= cfg.dp
                 w.muted[rank] = False
-                rec['raw'] = [(m.weight.grad.clone(), None if m.bias is None else m.bias.grad.clone()) for m in layers]
+                rec['raw'] = [(m.weight.grad.clone() / S_, None if m.bias is None else m.bias.grad.clone() / S_) for m in layers]
                 p.step()
-                rec['grads'] = [(m.weight.grad.clone(), None if m.bias is None else m.bias.grad.clone()) for m in layers]
+                # (with a loss scale S the gradients — raw and preconditioned — are S times the unscaled ones; K-FAC's factors
+                # are unscaled by the preconditioner itself)
+                rec['grads'] = [(m.weight.grad.clone() / S_, None if m.bias is None else m.bias.grad.clone() / S_) for m in layers]
                 rec['factors'] = []
                 for (n, l), iw in zip(p._layers.values(), out['inv']):
                     if iw == rank:
@@ -260,6 +265,13 @@ def run_real(cfg, sched_seed=0):
                     warnings.simplefilter('ignore')
                     p.load_state_dict(copy.deepcopy(kept_state) if op == 'b' else dict(kept_state), compute_inverses=True)
                 rec['steps'] = p.steps
+                # the second-order data the inverse workers hold now belongs to the restored factors: Q diag(d) Q^T = factor
+                rec['eig_vs_factor'] = []
+                for (n, l), iw in zip(p._layers.values(), out['inv']):
+                    if iw == rank and getattr(l, 'qa', None) is not None and getattr(l, 'da', None) is not None and l.a_factor is not None:
+                        A_ = l.a_factor.to(torch.float64)
+                        R_ = (l.qa.to(torch.float64) * torch.clamp(l.da.to(torch.float64), min=0.0)) @ l.qa.to(torch.float64).t()
+                        rec['eig_vs_factor'].append((n, relerr(R_, A_)))
                 rec['held_vs_kept'] = []
                 for (n, l), fw in zip(p._layers.values(), out['fw']):
                     if fw == rank and 'layers' in kept_ref:
